@@ -32,7 +32,7 @@ META = {
 }
 
 KINDS = ["plain", "include", "evalrst_include_opt", "html_img", "inv_wild", "subst", "subst_circ", "frontmatter_ext", "anchors", "footnotes",
-         "inv_stable", "inv_latest"]
+         "inv_stable", "inv_latest", "scheme_cls", "scheme_plain"]
 SPHINX_KINDS = ["figure_md", "html_img", "anchors", "xlink", "include", "frontmatter_ext", "figure_md_fail", "plain"]
 
 
@@ -43,6 +43,8 @@ def kind_text(k, name="doc"):
         "evalrst_include_opt": "```{eval-rst}\n.. include:: r.rst\n   :heading-offset: 1\n```\n",
         "html_img": '<img src="a.png" alt="x">\n',
         "inv_wild": "<inv:k:*:*#na*>\n\n<inv:k:std:label#n\\*>\n",
+        "scheme_cls": "[x](wiki:P){.special} and <wiki:Q>{.other}\n",      # links of a url scheme that has classes, with classes of their own
+        "scheme_plain": "[y](wiki:R) and <wiki:S>\n",
         "inv_stable": "<inv:k#name1>\n",          # parsed with the inventory's base URL .../stable/
         "inv_latest": "<inv:k#name1>\n",          # the same file configured with the base URL .../latest/
         "subst": "{{ sa }} and {{ sb }}\n",
@@ -55,6 +57,7 @@ def kind_text(k, name="doc"):
         "figure_md_plain": "```{figure-md} figp-" + name + "\n![alt](a.png)\n\ncaption text\n```\n",
         "figure_md_fail": "```{figure-md}\nnot an image\n```\n",
         "xlink": "# X\n\n[](anchors_doc.md#sub-1) and [t](anchors_doc.md#sub)\n",
+        "include_doc": "# Includes a document\n\n```{include} inca.md\n```\n",      # another document of the build, which itself includes a file
     }[k]
 
 
@@ -65,7 +68,9 @@ def docutils_overrides(d: Path):
         body = "name1 std:label -1 a.html#n N1\nn* std:label -1 b.html -\n"
         p.write_bytes(("# Sphinx inventory version 2\n# Project: p\n# Version: 1\n"
                        "# The remainder of this file is compressed using zlib.\n").encode() + zlib.compress(body.encode()))
-    return {"myst_enable_extensions": ["substitution"], "myst_substitutions": {"sa": "A", "sb": "*b*", "ca": "{{ cb }}", "cb": "{{ ca }}"},
+    return {"myst_enable_extensions": ["substitution", "attrs_inline"],
+            "myst_url_schemes": {"http": None, "https": None, "wiki": {"url": "https://w/{{path}}", "classes": ["wk"]}},
+            "myst_substitutions": {"sa": "A", "sb": "*b*", "ca": "{{ cb }}", "cb": "{{ ca }}"},
             "myst_inventories": {"k": ["https://e.x/", str(p)]}, "myst_heading_anchors": 2}
 
 
@@ -75,10 +80,12 @@ def _setup_dir(d: Path):
     (d / "r.rst").write_text("rst text\n")
 
 
-def parse_one(d: Path, k):
+def parse_one(d: Path, k, shared=None):
     from ..frontends import docutils_doctree
     text = kind_text(k)
-    ov = docutils_overrides(d)
+    # (one settings dictionary for the whole history, as a process with fixed settings has: its values are shared by
+    # all parses and must come out of each of them unchanged)
+    ov = dict(shared) if shared is not None else docutils_overrides(d)
     if k in ("inv_stable", "inv_latest"):
         ov["myst_inventories"] = {"k": [f"https://e.x/{k[4:]}/", ov["myst_inventories"]["k"][1]]}
     try:
@@ -103,7 +110,8 @@ def run_history(job):
     """executed in its own fresh process: parse the kinds of the history in order"""
     wd, hist = job
     d = Path(wd)
-    return [parse_one(d, k) for k in hist]
+    shared = docutils_overrides(d)
+    return [parse_one(d, k, shared) for k in hist]
 
 
 # ------------------------------------------------------------------ Sphinx builds
@@ -287,7 +295,32 @@ def run(ctx):
                 diff = "\n".join(list(difflib.unified_diff(serial["docs"][n]["sig"].splitlines(), o["docs"][n]["sig"].splitlines(), "serial", "parallel", lineterm="", n=0))[:8])
                 ctx.violation(f"document {n} ({k}) differs between the serial build and the build with read order {order}, chunks {chunks}:\n{diff}", case)
                 break
-    ctx.leg("R-schedule", schedules=len(uniq))
+    # a second, small family: a document that includes another document of the build (which includes a file); every
+    # read order, serial and split over two workers -- each document's output must be the same in all of them
+    bdocs2 = [("inca", "include"), ("incb", "include_doc"), ("imgz", "html_img")]
+    names2 = [n for n, _ in bdocs2]
+    sch2 = [(list(o_), None) for o_ in itertools.permutations(names2)]
+    sch2 += [(names2, [["inca"], ["incb", "imgz"]]), (names2, [["inca", "incb"], ["imgz"]]), (["incb", "inca", "imgz"], [["incb"], ["inca", "imgz"]])]
+    outs2 = pmap(_build_job, [(str(ctx.wd / f"b2_{n}"), bdocs2, order, chunks) for n, (order, chunks) in enumerate(sch2)], procs=8, chunksize=1)
+    ref2 = None
+    for (order, chunks), o in zip(sch2, outs2):
+        case = {"leg": "R-schedule", "read_order": order, "chunks": chunks, "documents": {n: kind_text(k, n) for n, k in bdocs2}}
+        ctx.count(("b2", repr((order, chunks))), nontrivial=True)
+        ctx.traces_validated += 1
+        if not o.get("ok"):
+            ctx.violation(f"Sphinx build (include chain) under schedule order={order} chunks={chunks} failed: {o.get('error')}", case)
+            continue
+        if ref2 is None:
+            ref2 = (order, chunks, o)
+            continue
+        for n, k in bdocs2:
+            if o["docs"][n]["sig"] != ref2[2]["docs"][n]["sig"]:
+                import difflib
+                diff = "\n".join(list(difflib.unified_diff(ref2[2]["docs"][n]["sig"].splitlines(), o["docs"][n]["sig"].splitlines(),
+                                                           f"order {ref2[0]}", f"order {order} chunks {chunks}", lineterm="", n=0))[:8])
+                ctx.violation(f"document {n} ({k}) differs between the build with read order {ref2[0]} and the one with read order {order}, chunks {chunks}:\n{diff}", case)
+                break
+    ctx.leg("R-schedule", schedules=len(uniq), include_chain_schedules=len(sch2))
     shutil.rmtree(hd, ignore_errors=True)
     ctx.exhaustive = not quick
 
